@@ -42,12 +42,12 @@ let stmt_of = function
 
 let loc_of = function
   | "fresh" -> LFresh | "chunk" -> LChunk | "catalog" -> LCatalog | "local" -> LLocalFile
-  | "unreg" -> LUnregistered | "mem" -> LMemTable
+  | "unreg" -> LUnregistered | "mem" -> LMemTable | "noinsert" -> LNoInsert
   | s -> failwith ("bad loc " ^ s)
 
 let loc_name = function
   | LFresh -> "fresh" | LChunk -> "chunk" | LCatalog -> "catalog" | LLocalFile -> "local"
-  | LUnregistered -> "unreg" | LMemTable -> "mem"
+  | LUnregistered -> "unreg" | LMemTable -> "mem" | LNoInsert -> "noinsert"
 
 let iface_of = function
   | "sql" -> ISqlHttp | "sqlidx" -> ISqlIndexed | "stream" -> IStreaming
